@@ -207,8 +207,8 @@ func Watch(what string) {
 	if watchdog != nil {
 		watchdog.Stop()
 	}
-	watchdog = time.AfterFunc(60*time.Second, func() {
-		fmt.Fprintln(os.Stderr, "watchdog: case did not finish within 60s:", what)
+	watchdog = time.AfterFunc(240*time.Second, func() {
+		fmt.Fprintln(os.Stderr, "watchdog: case did not finish within 240s:", what)
 		os.Exit(3)
 	})
 }
